@@ -42,7 +42,7 @@ def gen_chain(rng, k, B):
             for _ in range(len(flat(srecs)) // 16 + 4):
                 ops += [[0, 10 ** 6], [2, 10 ** 6], [4, 10 ** 6], [3]]
         if j + 1 < k:
-            ops.append([6, "REL%d" % j] + ([1] if rng.random() < 0.4 else []))
+            ops.append([6, "REL%d" % j] + rng.choice([[], [], [1], [1], [2]]))
     ops.append(rng.choice([[8], [0, 0], [3]]))
     # the client releases request j+1 only after request j was closed
     for o in ops:
@@ -235,6 +235,8 @@ def oracle(line, impl_line):
         last = ev
         if ev["kind"] == "next" and ev["ok"] and ev["done"]:
             got.append(ev["req"])
+        elif ev["kind"] == "next" and op is not None and op[2:3] == [2] and ev.get("code") == [5]:
+            break              # the plain hand-off was asked off a record boundary: refused, as documented
         elif ev["kind"] == "next":
             return ("the hand-off to the next request failed on compliant traffic (%s): bytes were lost, duplicated or "
                     "reordered across the conversion" % (ev.get("code") or "request not completed"))
